@@ -262,8 +262,16 @@ def fork_map(ctx, fn, items, nproc=None, chunks_per_proc=4):
     nchunks = max(1, min(len(items), nproc * chunks_per_proc))
     chunks = [items[i::nchunks] for i in range(nchunks)]
     args = [(ctx.pid, ctx.tier, ctx.seed, ctx.meta, ctx.workdir, fn, ch, i) for i, ch in enumerate(chunks)]
-    with mp.get_context("fork").Pool(nproc) as pool:
-        results = pool.map(_worker, args, chunksize=1)
+    # ProcessPoolExecutor, not multiprocessing.Pool: when a worker is killed by the operating system (out of memory)
+    # Pool.map waits forever; the executor raises BrokenProcessPool, which is a machinery failure (exit 2), not a hang
+    from concurrent.futures import ProcessPoolExecutor
+    from concurrent.futures.process import BrokenProcessPool
+    try:
+        with ProcessPoolExecutor(max_workers=nproc, mp_context=mp.get_context("fork")) as pool:
+            results = list(pool.map(_worker, args))
+    except BrokenProcessPool as e:
+        raise MachineryError("a replay worker process died abruptly (killed by the operating system, e.g. out of "
+                             "memory): %s" % e)
     for r in results:
         if "error" in r:
             raise MachineryError("worker failed: " + r["error"][-3000:])
